@@ -147,3 +147,30 @@ func TestC12Big(t *testing.T) {
 	}
 	evC12.CaseHash(true, seed, func() string { return fmt.Sprintf("volume case: CSV fields of %v bytes", lens) }, "long-cells-2^24")
 }
+
+// TestC09Big: the writers on a frame whose output is several MiB (more than any internal write buffer): 70000 rows
+// with a cell of 1.5 MiB in the middle; every observer still describes the same rows.
+func TestC09Big(t *testing.T) {
+	seed, _ := strconv.ParseUint(os.Getenv("VERIF_SHARD_SEED"), 10, 64)
+	rng := hx.SplitMix(seed)
+	n := 70000 + rng.Intn(5000)
+	tab := hx.Table{Cols: []hx.Col{{Name: "id", Kind: hx.KInt, I: hx.Iota(n)}, {Name: "s", Kind: hx.KString, S: make([]*string, n)}, {Name: "f", Kind: hx.KFloat, F: make([]float64, n)}}}
+	pool := []string{"a", "", "q\"q", "tab\there", "ä€", "line\nbreak", "\\", "x,y", " "}
+	for r := 0; r < n; r++ {
+		if rng.Intn(9) != 0 {
+			tab.Cols[1].S[r] = hx.Sp(pool[rng.Intn(len(pool))] + strconv.Itoa(r%97))
+		}
+		tab.Cols[2].F[r] = float64(rng.Intn(1000)) / 8
+	}
+	tab.Cols[1].S[n/2] = hx.Sp(bigString(3<<19+rng.Intn(1000), 'M'))
+	qf := hx.Build(tab).Sort(qframe.Order{Column: "id", Reverse: true}).Sort(qframe.Order{Column: "id"})
+	for name, f := range map[string]func(qframe.QFrame, hx.Table) string{"ToCSV": checkCSV, "ToJSON": checkJSON} {
+		if msg := f(qf, tab); msg != "" {
+			if len(msg) > 2000 {
+				msg = msg[:2000] + "…"
+			}
+			t.Fatalf("observer %s on a frame of %d rows with one cell of 1.5 MiB: %s", name, n, msg)
+		}
+	}
+	evC09.CaseHash(true, seed, func() string { return fmt.Sprintf("volume case: ToCSV/ToJSON of %d rows incl. a cell of 1.5 MiB", n) }, "multi-MiB-output")
+}
